@@ -279,6 +279,14 @@ func (fr *frame) hazard(class, g, okCond string, pos token.Pos, what string) {
 	var props []string
 	if panicClasses[class] {
 		props = []string{"C05"}
+		// `safety own`: a panic here is also a violation of the function's own properties
+		if root := fr.rootFr; root != nil && root.contract != nil && root.contract.First("safety") == "own" {
+			for _, p := range fr.props {
+				if p != "C05" {
+					props = append(props, p)
+				}
+			}
+		}
 	} else {
 		props = fr.props
 	}
